@@ -338,6 +338,18 @@ def opsXtce (op : String) (args : List SExp) : Option String :=
       pure (unsup d fun d =>
         let evs := packetGenerator d (root.getD d.root) o ⟨skip, TRIM_THRESHOLD⟩ (initFile chunks total)
         "events" ++ String.join (evs.map (fun e => " " ++ showEvent e)))
+  | "genxml", [_xml, d, root, .list [pb, ho, cb, sh, yu], skip, SExp.atom kind, _r, chunks] => do
+      let d ← parseDef d; let root ← root.optStr?
+      let o : GenOpts := { parseBad := ← pb.bool?, headersOnly := ← ho.bool?, combine := ← cb.bool?,
+                           secHdrBytes := ← sh.nat?, yieldUnrec := ← yu.bool? }
+      let skip ← skip.nat?; let chunks ← hexList2? chunks
+      let total := (chunks.map List.length).foldl (· + ·) 0
+      let st ← if kind == "bytes" then some (initBytes chunks.flatten)
+               else if kind == "file" then some (initFile chunks total)
+               else if kind == "socket" then some (initSocket chunks) else none
+      pure (unsup d fun d =>
+        let evs := packetGenerator d (root.getD d.root) o ⟨skip, TRIM_THRESHOLD⟩ st
+        "events" ++ String.join (evs.map (fun e => " " ++ showEvent e)))
   | "gensched", [d, root, .list [pb, ho, cb, sh, yu], skip, .list srcs, _sched] => do
       let d ← parseDef d; let root ← root.optStr?
       let o : GenOpts := { parseBad := ← pb.bool?, headersOnly := ← ho.bool?, combine := ← cb.bool?,
